@@ -159,7 +159,8 @@ def w_crash(kind: int, cmd: int, k: int, mode: int) -> str:
 
 
 def obligations(tier):
-    return [CH('W_crash_point_x_kind_x_cmd', MOD, 'w_crash', timeout=1800, partitions=[(c, md) for c in range(9) for md in range(3)], engine='W',
+    from harness import kpair
+    return kpair.obligations(tier) + [CH('W_crash_point_x_kind_x_cmd', MOD, 'w_crash', timeout=1800, partitions=[(c, md) for c in range(9) for md in range(3)], engine='W',
                regime='selector', encodes=K.RESTORE_FUNCS + K.EMPTY_FUNCS + K.RM_FUNCS + ['shutil.move/rmtree (CPython source over the model)'],
                stubs=K.STUBS + ['SIGKILL -> sticky BaseException at the k-th system call', 'SIGINT -> one KeyboardInterrupt instead of / right after the k-th system call'],
                bounds='crash point k in 0..(longest undisturbed run of the command scenario, measured) x 3 ways of dying (fail-stop; KeyboardInterrupt before / after the k-th system call, handlers run) x 6 kinds x 9 commands '
